@@ -354,7 +354,7 @@ Theorem request_melt_quote_fee cfg u dc req h msat part newid w w' q :
 Proof.
   unfold request_melt_quote. destruct u; cbn [negb]; [|cbn [run]; intros H; inversion H].
   destruct dc; cbn [negb]; [|cbn [run]; intros H; inversion H].
-  destruct (msat =? 0); [cbn [run]; intros H; inversion H|].
+  destruct ((msat <=? 0) || (two63 <=? msat)); [cbn [run]; intros H; inversion H|].
   destruct w as [d l m a n]. sx.
   destruct (same_invoice (ROk (find (fun q0 => mq_hash q0 =? h) (d_mq d))) req) as [mq0|].
   - destruct (c_mpp cfg); sx; intros H; inversion H.
